@@ -201,13 +201,13 @@ static int do_rxd(char **tok, int ntok)
 	} else {
 		fprintf(out, " ind");
 		if (rec.n_ind != 1) fprintf(out, "*%d", rec.n_ind);
-		fprintf(out, " %u %u %d %d %u ", rec.ind_tn, rec.ind_fn, rec.ind_rssi, rec.ind_toa256, rec.ind_burst_len);
+		fprintf(out, " %lld %lld %lld %lld %u ", rec.ind_tn, rec.ind_fn, rec.ind_rssi, rec.ind_toa256, rec.ind_burst_len);
 		if (rec.ind_burst_len == 0) fputc('-', out);
 		for (i = 0; i < rec.ind_burst_len && i < sizeof(rec.ind_burst); i++)
 			fprintf(out, "%02x", (uint8_t) rec.ind_burst[i]);
 		fprintf(out, " | rts");
 		if (rec.n_rts != 1) fprintf(out, "*%d", rec.n_rts);
-		fprintf(out, " %u %u", rec.rts_fn, rec.rts_tn);
+		fprintf(out, " %lld %lld", rec.rts_fn, rec.rts_tn);
 	}
 	fputc('\n', out);
 	env_close(&e);
@@ -345,8 +345,8 @@ static int do_rsp(char **tok, int ntok)
 		e.fi->state, e.trx->prev_state, e.trx->powered_up, q1, rec.elog ? 1 : 0);
 	if (rec.n_rsp) {
 		fprintf(out, "rsp");
-		if (rec.n_rsp != 1 || rec.rsp_type != TRXCON_PHYIF_CMDT_MEASURE) fprintf(out, "*%d/%d", rec.n_rsp, rec.rsp_type);
-		fprintf(out, " %u %d", rec.rsp_arfcn, rec.rsp_dbm);
+		if (rec.n_rsp != 1 || rec.rsp_type != TRXCON_PHYIF_CMDT_MEASURE) fprintf(out, "*%d/%lld", rec.n_rsp, rec.rsp_type);
+		fprintf(out, " %lld %lld", rec.rsp_arfcn, rec.rsp_dbm);
 	} else
 		fprintf(out, "-");
 	fprintf(out, " | ");
